@@ -1710,6 +1710,14 @@ fn drop_stream_ref(inner: &Mutex<Inner>, key: store::Key) {
             }
         }
     });
+
+    // Like `Streams::drop`: if only the connection itself still references
+    // the shared state, it has to get a chance to notice and shut down.
+    if me.refs == 1 {
+        if let Some(task) = me.actions.task.take() {
+            task.wake();
+        }
+    }
 }
 
 fn maybe_cancel(stream: &mut store::Ptr, actions: &mut Actions, counts: &mut Counts) {
